@@ -276,6 +276,31 @@ PROPS = {
         "level_note": "Trusted: Coq kernel, extraction, server rig. Modelled, not verified: handleError, service.call's recover, "
                       "client.input's error branch.",
     },
+    "C20": {
+        "rule": "size classes: findPool / findPutPool compared with the exact-arithmetic model for EVERY size 0..max+2 of 40 "
+                "configurations (incl. non-power-of-two min/max; one model line per configuration, ~114k sizes); 300 (thorough 8000) "
+                "Get/Put histories with content fingerprints and pointer-distinctness of held buffers; 16 concurrent workers holding "
+                "Encode / Zip / Unzip results across further library activity and re-checking fingerprints; server request schedules "
+                "that force sync.Pool to hand back the object put last (GOMAXPROCS(1)): one-way warm-up, overlapping requests completed "
+                "in reverse order, full then partial arguments, for plain and Reset-able types; distinct = distinct case; non-trivial = "
+                "max > min / history / schedule with at least 2 requests",
+        "theorems": ["C20_get_fits_its_class", "C20_put_is_big_enough", "C20_get_returns_requested_length", "C20_exclusive_ownership",
+                     "C20_single_owner", "C20_handle_request_keeps_the_discipline"],
+        "assumptions": ["sync.Pool is an oracle: Get may return any object that was put or a new one (the theorem holds for every choice)",
+                        "float64 math.Log2 in findPool/findPutPool is tied to the exact model only by the exhaustive per-configuration "
+                        "sweep (the set of configurations is sampled)",
+                        "content stability of held buffers follows from exclusive ownership (only the owner writes); contents are not "
+                        "modelled, they are fingerprinted by the harness"],
+        "trusted": ["/repo/util/verif_export.go: VerifFindPoolIndex, VerifFindPutPoolIndex, VerifPoolClassSizes",
+                    "harness/cmd/vh/srvrig.go ownership tracking of pooled objects inside the test handlers"],
+        "level_text": "Theorems: for every pool configuration and size, a request fits the class it is routed to and a returned buffer is "
+                      "at least as large as its class allocates (so Get returns exactly the requested length); for every Get/Put history "
+                      "that keeps the discipline and every choice of the pool no object has two owners; handleRequest keeps that "
+                      "discipline on every one of its paths (finite case analysis). The exact-arithmetic class functions are compared "
+                      "with the float implementation exhaustively per configuration; sharing is hunted with forced pool-reuse schedules.",
+        "level_note": "Trusted: Coq kernel, extraction, harness. Modelled, not verified: util.LimitedPool, util.Zip/Unzip, "
+                      "protocol.EncodeSlicePointer/PutData, server typePools and handleRequest's Get/Put calls.",
+    },
     "C12": {
         "rule": "exhaustive weight vectors (quick: n<=3,w<=4 and n=4,w<=2; thorough: n<=4,w<=6) from a random window "
                 "offset, round-robin sets n=0..8 from every cursor offset, and random update/selection histories over a "
